@@ -12,6 +12,7 @@ import (
 	"sort"
 	"strconv"
 	"strings"
+	"sync"
 	"time"
 )
 
@@ -82,12 +83,27 @@ func runsFor(prop *Prop, tier string) int {
 }
 
 // RunShard executes runs shard, shard+of, ... of the batch.
-func RunShard(prop *Prop, tier string, seed uint64, shard, of int) *WorkerResult {
+//
+// skip lists runs that killed an earlier worker process (they are triaged by
+// the driver in isolation); only >= 0 executes that single run.
+func RunShard(prop *Prop, tier string, seed uint64, shard, of int, skip map[int]bool, only int) *WorkerResult {
 	res := &WorkerResult{Stats: NewStats()}
 	total := runsFor(prop, tier)
 	seenOracle := map[string]int{}
 	sigSeen := map[uint64]struct{}{}
 	for run := shard; run < total; run += of {
+		if only >= 0 {
+			if run != shard {
+				break
+			}
+			run = only
+		}
+		if skip[run] {
+			continue
+		}
+		// marker for crash isolation: a fatal runtime error (out of memory, stack
+		// overflow) inside a library call cannot be recovered in-process
+		fmt.Fprintf(os.Stderr, "@run %d\n", run)
 		r := NewPRNG(Mix(seed, uint64(run)))
 		plan := prop.Generate(r, run, tier)
 		plan.Format, plan.Property, plan.Seed, plan.Run, plan.Tier, plan.World = 1, prop.ID, seed, run, tier, prop.World
@@ -230,32 +246,50 @@ func RunCheck(prop *Prop, tier string, seed uint64, workers int, verifDir string
 	if tier == "quick" {
 		watchdog = 20 * time.Minute
 	}
+	var crashMu sync.Mutex
+	var crashed []*Plan
 	for i := 0; i < workers; i++ {
 		go func(i int) {
-			cmd := exec.Command(self, "-worker", "-prop", prop.ID, "-tier", tier, "-seed", strconv.FormatUint(seed, 10),
-				"-shard", fmt.Sprintf("%d/%d", i, workers))
-			cmd.Env = os.Environ()
-			var stdout, stderr bytes.Buffer
-			cmd.Stdout, cmd.Stderr = &stdout, &stderr
-			if err := cmd.Start(); err != nil {
-				outs[i].err = err
-				done <- i
-				return
+			defer func() { done <- i }()
+			skip := []string{}
+			for attempt := 0; ; attempt++ {
+				args := []string{"-worker", "-prop", prop.ID, "-tier", tier, "-seed", strconv.FormatUint(seed, 10), "-shard", fmt.Sprintf("%d/%d", i, workers)}
+				if len(skip) > 0 {
+					args = append(args, "-skip", strings.Join(skip, ","))
+				}
+				stdout, stderr, err := runChild(self, args, watchdog)
+				if err == nil {
+					res := &WorkerResult{}
+					if err := json.Unmarshal(stdout, res); err != nil {
+						outs[i].err = fmt.Errorf("worker %d: bad output: %v: %s", i, err, tail(string(stdout), 500))
+					}
+					outs[i].res = res
+					return
+				}
+				// the worker died: find the run it was executing and triage it in isolation
+				last := -1
+				if k := strings.LastIndex(stderr, "@run "); k >= 0 {
+					fmt.Sscanf(stderr[k:], "@run %d", &last)
+				}
+				if last < 0 || attempt >= 4 {
+					outs[i].err = fmt.Errorf("worker %d: %v: %s", i, err, tail(stripMarkers(stderr), 2000))
+					return
+				}
+				_, stderr2, err2 := runChild(self, []string{"-worker", "-prop", prop.ID, "-tier", tier, "-seed", strconv.FormatUint(seed, 10), "-shard", "0/1", "-only", strconv.Itoa(last)}, watchdog)
+				if err2 == nil {
+					outs[i].err = fmt.Errorf("worker %d died in run %d but the run passes in isolation (not reproducible): %v: %s", i, last, err, tail(stripMarkers(stderr), 1500))
+					return
+				}
+				plan := prop.Generate(NewPRNG(Mix(seed, uint64(last))), last, tier)
+				plan.Format, plan.Property, plan.Seed, plan.Run, plan.Tier, plan.World = 1, prop.ID, seed, last, tier, prop.World
+				plan.Violation = &Violation{Property: prop.ID, Oracle: prop.ID + ".fatal", AtEvent: -1,
+					Message:  "the process executing this plan died with an unrecoverable runtime error inside the library: " + fatalLine(stderr2),
+					Expected: "no crash", Observed: "fatal error", Sig: prop.ID + "/fatal/" + fatalKind(stderr2)}
+				crashMu.Lock()
+				crashed = append(crashed, plan)
+				crashMu.Unlock()
+				skip = append(skip, strconv.Itoa(last))
 			}
-			timer := time.AfterFunc(watchdog, func() { cmd.Process.Kill() })
-			err := cmd.Wait()
-			timer.Stop()
-			if err != nil {
-				outs[i].err = fmt.Errorf("worker %d: %v: %s", i, err, tail(stderr.String(), 2000))
-				done <- i
-				return
-			}
-			res := &WorkerResult{}
-			if err := json.Unmarshal(stdout.Bytes(), res); err != nil {
-				outs[i].err = fmt.Errorf("worker %d: bad output: %v: %s", i, err, tail(stdout.String(), 500))
-			}
-			outs[i].res = res
-			done <- i
 		}(i)
 	}
 	for i := 0; i < workers; i++ {
@@ -292,6 +326,7 @@ func RunCheck(prop *Prop, tier string, seed uint64, workers int, verifDir string
 		failing = append(failing, r.Violations...)
 		digest = Hash64(digest ^ r.Digest ^ uint64(i+1))
 	}
+	failing = append(failing, crashed...)
 	sort.Slice(failing, func(i, j int) bool { return failing[i].Run < failing[j].Run })
 
 	// triage: minimise, match against known findings, replay-confirm
@@ -302,7 +337,7 @@ func RunCheck(prop *Prop, tier string, seed uint64, workers int, verifDir string
 	reported := map[string]bool{}
 	var minInfos []map[string]interface{}
 	replayMismatch := false
-	triaged := 0
+	triaged, skippedTriage := 0, 0
 	for _, fp := range failing {
 		v := fp.Violation
 		key := v.Oracle + "|" + v.Sig
@@ -310,7 +345,10 @@ func RunCheck(prop *Prop, tier string, seed uint64, workers int, verifDir string
 			continue
 		}
 		if triaged >= 6 {
-			fmt.Printf("note: further failing runs (run %d, %s) are not minimised in this invocation\n", fp.Run, v.Oracle)
+			skippedTriage++
+			if skippedTriage <= 3 {
+				fmt.Printf("note: further failing runs (run %d, %s) are not minimised in this invocation\n", fp.Run, v.Oracle)
+			}
 			continue
 		}
 		triaged++
@@ -321,7 +359,13 @@ func RunCheck(prop *Prop, tier string, seed uint64, workers int, verifDir string
 			}
 			return vv
 		}
-		minPlan, minV, info := Minimise(fp, v, execOnce, 3000)
+		budget := 3000
+		if strings.HasSuffix(v.Oracle, ".fatal") {
+			// executing this plan kills the process: every candidate runs in a child
+			execOnce = func(c *Plan) *Violation { return execInChild(self, c) }
+			budget = 120
+		}
+		minPlan, minV, info := Minimise(fp, v, execOnce, budget)
 		key = minV.Oracle + "|" + minV.Sig
 		if reported[key] {
 			continue
@@ -437,6 +481,39 @@ func RunCheck(prop *Prop, tier string, seed uint64, workers int, verifDir string
 // Exit 1 if the recorded oracle (or any oracle of the property, when none is
 // recorded) fails, 0 if nothing fails, 2 otherwise.
 func Replay(path string, quiet bool) int {
+	// the plan is executed in a child process so that a fatal runtime error
+	// inside the library is reported as a verdict instead of killing the replay
+	self, _ := os.Executable()
+	args := []string{"-replay-inproc", path}
+	if quiet {
+		args = append(args, "-quiet")
+	}
+	stdout, stderr, err := runChild(self, args, 30*time.Minute)
+	os.Stdout.Write(stdout)
+	code := 0
+	if ee, ok := err.(*exec.ExitError); ok {
+		code = ee.ExitCode()
+	} else if err != nil {
+		code = 2
+	}
+	if code == 0 || code == 1 || (code == 2 && !isFatal(stderr)) {
+		os.Stderr.WriteString(stripMarkers(stderr))
+		return code
+	}
+	p, perr := LoadPlan(path)
+	if perr != nil {
+		return 2
+	}
+	fmt.Printf("replay: VIOLATION property=%s oracle=%s.fatal sig=%s/fatal/%s\n  the process executing the plan died: %s\n", p.Property, p.Property, p.Property, fatalKind(stderr), fatalLine(stderr))
+	if p.Violation != nil && p.Violation.Oracle != p.Property+".fatal" {
+		fmt.Printf("replay: a different oracle failed than the recorded one (%s)\n", p.Violation.Oracle)
+		return 2
+	}
+	return 1
+}
+
+// ReplayInProc executes a replay file in this process.
+func ReplayInProc(path string, quiet bool) int {
 	p, err := LoadPlan(path)
 	if err != nil {
 		fmt.Fprintf(os.Stderr, "ERROR: %v\n", err)
@@ -492,4 +569,82 @@ func clip(s string, n int) string {
 		return s[:n] + "..."
 	}
 	return s
+}
+
+func runChild(self string, args []string, timeout time.Duration) (stdout []byte, stderr string, err error) {
+	cmd := exec.Command(self, args...)
+	cmd.Env = os.Environ()
+	var so, se bytes.Buffer
+	cmd.Stdout, cmd.Stderr = &so, &se
+	if err = cmd.Start(); err != nil {
+		return nil, "", err
+	}
+	timer := time.AfterFunc(timeout, func() { cmd.Process.Kill() })
+	err = cmd.Wait()
+	timer.Stop()
+	return so.Bytes(), se.String(), err
+}
+
+func isFatal(stderr string) bool {
+	return strings.Contains(stderr, "fatal error:") || strings.Contains(stderr, "runtime: out of memory") || strings.Contains(stderr, "signal: killed")
+}
+
+func fatalLine(stderr string) string {
+	for _, l := range strings.Split(stderr, "\n") {
+		if strings.HasPrefix(l, "fatal error:") || strings.HasPrefix(l, "runtime: out of memory") || strings.HasPrefix(l, "runtime: goroutine stack exceeds") {
+			return strings.TrimSpace(l)
+		}
+	}
+	return "killed (no runtime message)"
+}
+
+func fatalKind(stderr string) string {
+	switch {
+	case strings.Contains(stderr, "out of memory"):
+		return "out-of-memory"
+	case strings.Contains(stderr, "stack exceeds"), strings.Contains(stderr, "stack overflow"):
+		return "stack-overflow"
+	case strings.Contains(stderr, "all goroutines are asleep"):
+		return "deadlock"
+	}
+	return "killed"
+}
+
+func stripMarkers(stderr string) string {
+	var out []string
+	for _, l := range strings.Split(stderr, "\n") {
+		if !strings.HasPrefix(l, "@run ") {
+			out = append(out, l)
+		}
+	}
+	return strings.Join(out, "\n")
+}
+
+// execInChild executes one plan in a child process and maps the outcome to a
+// verdict: a normal violation, none, or a fatal crash.
+func execInChild(self string, p *Plan) *Violation {
+	f, err := os.CreateTemp("", "verif-plan-*.json")
+	if err != nil {
+		return nil
+	}
+	path := f.Name()
+	f.Close()
+	defer os.Remove(path)
+	c := p.Clone()
+	if err := c.Save(path); err != nil {
+		return nil
+	}
+	_, stderr, err := runChild(self, []string{"-replay-inproc", path, "-quiet"}, 5*time.Minute)
+	if err == nil {
+		return nil
+	}
+	if ee, ok := err.(*exec.ExitError); ok && ee.ExitCode() == 1 {
+		return &Violation{Property: p.Property, Oracle: p.Property + ".other", AtEvent: -1}
+	}
+	if isFatal(stderr) {
+		return &Violation{Property: p.Property, Oracle: p.Property + ".fatal", AtEvent: -1,
+			Message:  "the process executing this plan died with an unrecoverable runtime error inside the library: " + fatalLine(stderr),
+			Expected: "no crash", Observed: "fatal error", Sig: p.Property + "/fatal/" + fatalKind(stderr)}
+	}
+	return nil
 }
